@@ -175,7 +175,7 @@ def run(ctx, chk):
     chk.explanation = EXPL
     P = ctx.program
     chk.rule("C15.R1", "no abort site of the front end can fail on any input text", floor=60)
-    chk.rule("C15.R2", "character counts and byte offsets are never mixed", floor=3)
+    chk.rule("C15.R2", "character counts and byte offsets are never mixed", floor=2)
     chk.rule("C15.R3", "stdin read loops end at end of input", floor=1)
     chk.rule("C15.R4", "input-driven native recursion has a depth bound", floor=1)
     chk.rule("C15.R5", "no other native recursion", floor=1)
